@@ -148,6 +148,12 @@ def get_all_rules(rules_path=None, match_mode='first_match'):
     """
     global _cached_engine, _cached_engine_path
 
+    # Whatever was loaded before no longer applies. Without this reset a CSV
+    # file, a missing file or a failed load would leave normalize_merchant()
+    # answering from the engine of a previously loaded .rules file.
+    _cached_engine = None
+    _cached_engine_path = None
+
     user_rules_with_source = []
     if rules_path:
         # Check if it's the new .rules format
